@@ -58,3 +58,29 @@ Fixpoint attnorm_tok_inline (in_ws first_seen : bool) (v : raw) : str :=
       if (snd p =? 32) || (negb (fst p) && is_ws (snd p)) then attnorm_tok_inline true first_seen r
       else (if in_ws && first_seen then [32] else []) ++ snd p :: attnorm_tok_inline false true r
   end.
+
+(* ---- XML 1.1 end-of-line handling (section 2.11 of XML 1.1; code: handleEOL with fNEL = true): #xD #xA, #xD #x85,
+        #x85, #x2028 and any other #xD become #xA *)
+Fixpoint eol_norm11 (l : str) : str :=
+  match l with
+  | c :: r =>
+      if c =? 13 then
+        10 :: match r with
+              | d :: r' => if (d =? 10) || (d =? 0x85) then eol_norm11 r' else eol_norm11 r
+              | [] => []
+              end
+      else if (c =? 0x85) || (c =? 0x2028) then 10 :: eol_norm11 r
+      else c :: eol_norm11 r
+  | [] => []
+  end.
+
+(* ---- source positions (Locator): after the reader has consumed [prefix] of the entity, the line number is
+        1 + the number of normalised line ends in it and the column is 1 + the number of characters since the
+        last one *)
+Definition count_lf (s : str) : N := N.of_nat (length (filter (fun c => c =? 10) s)).
+Fixpoint since_lf (acc : N) (s : str) : N :=
+  match s with [] => acc | c :: r => since_lf (if c =? 10 then 0 else acc + 1) r end.
+Definition line_after (v11 : bool) (prefix : str) : N :=
+  1 + count_lf (if v11 then eol_norm11 prefix else eol_norm prefix).
+Definition col_after (v11 : bool) (prefix : str) : N :=
+  1 + since_lf 0 (if v11 then eol_norm11 prefix else eol_norm prefix).
